@@ -21,6 +21,7 @@ import (
 	"crypto/x509"
 	"encoding/pem"
 	"fmt"
+	"google.golang.org/protobuf/encoding/protowire"
 	"io"
 	"os"
 	"path/filepath"
@@ -355,6 +356,21 @@ func (env *c01Env) mutants(full bool) []c01Mutant {
 	add("signature-empty", c01FromParts(payload, nil))
 	add("signature-truncated", c01FromParts(payload, sig[:len(sig)-1]))
 	add("signature-of-other-payload", c01FromParts(payload, c01SignPSS(crng, env.keyA, append([]byte{0}, payload...), crypto.SHA256, 32)))
+	// ---- the (payload, signature) boundary moved: payload cut at a top-level field boundary, the cut-off tail
+	// prepended to the signature (the concatenation cert‖payload‖signature is unchanged — whatever identifies a
+	// checked triple by that concatenation, or by less than all three parts, is fooled after the genuine one)
+	for rest, off := payload, 0; len(rest) > 0; {
+		_, _, n := protowire.ConsumeField(rest)
+		if n <= 0 {
+			break
+		}
+		off += n
+		rest = rest[n:]
+		if off < len(payload) {
+			add("payload-tail-moved-into-signature", c01FromParts(append([]byte(nil), payload[:off]...), append(append([]byte(nil), payload[off:]...), sig...)))
+		}
+	}
+	add("signature-head-moved-into-payload", c01FromParts(append(append([]byte(nil), payload...), sig[:7]...), append([]byte(nil), sig[7:]...)))
 	// ---- same message, different bytes
 	if re, ok := c01Reorder(payload); ok {
 		add("payload-reencoded-field-order", c01FromParts(re, sig))
